@@ -1,5 +1,6 @@
 import MaltModel.Py.SexpAst
 import MaltModel.Conv.TemplateHyp
+import MaltModel.Conv.SrcClass
 import MaltModel.Generated.Templates
 /- Driver handlers for the C17 correspondence and the verified context checker (glue only). -/
 namespace Malt.Drv.C17
@@ -65,6 +66,12 @@ def handlers : List (String × (List Sexp → String)) := [
       match instantiateBare t b with
       | .ok r => pure (toString (Sexp.list ([.atom "ok", r.toSexp] ++ flags t b ++ [Sexp.ofBool (okE .load r), dupAndShared (labelsE r) b])))
       | .error e => pure (toString (Sexp.list ([.atom "err", .atom (errName e)] ++ flags t b)))),
+  -- finding classes decided on the SOURCE function
+  ("c17.srcclass", fun a => run do
+      let [x] := a | none
+      let s ← parseStmt x
+      pure (toString (Sexp.list [Sexp.ofBool (Malt.Conv.SrcClass.hasStoreListDisplay s),
+                                 Sexp.ofBool (Malt.Conv.SrcClass.appendInExprPosition s)]))),
   -- the generated table
   ("c17.tmpl", fun a => run do
       let [.atom nm] := a | none
